@@ -22,3 +22,21 @@ extern "C" void step_save_load() { body_save_load(ck0, ck1); }                  
 extern "C" void step_history_replay() { body_history_replay(ck0, ck1); }                    // kind, destination
 extern "C" void proof_history_enter() { body_history_enter(); }
 #endif
+#ifdef VM_UTILITY
+extern "C" void step_utilize()   { body_utilize(ck0, ck1); }       // kind (4 utilize / 0 change), region
+extern "C" void step_randomize() { body_randomize(ck0, ck1); }     // kind (5 randomize / 0 change), region
+#endif
+#ifdef VM_PLANS
+extern "C" void step_plan() { body_plan((unsigned) ck0, ck1, ck2, ck3); }        // configuration, plan shape, acting state, action (1 succeed / 2 fail)
+#endif
+#ifdef VM_PAYLOAD
+extern "C" void step_payload() { body_payload(ck0, ck1, ck2, ck3); }                 // dest1, has payload 1, dest2 (0 = none), has payload 2
+#endif
+#ifdef VM_LOGGER
+extern "C" void step_logger()         { body_logger(ck0, ck1); }
+extern "C" void step_logger_neutral() { body_logger_neutral(ck0, ck1); }
+extern "C" void step_logger_update()  { body_logger_update((unsigned) ck0, ck1, ck2, ck3); }
+#endif
+#ifdef HFSM2_ENABLE_STRUCTURE_REPORT
+extern "C" void step_structure()      { body_structure(ck0, ck1); }
+#endif
